@@ -213,7 +213,7 @@ class C12(Property):
         c = {"aseed": rng.randint(0, 10 ** 6), "gpts": [g, rng.choice([g, g, g + rng.choice([-3, 5, 8])])], "sampling": [samp, samp],
              "energy": rng.choice([80e3, 100e3, 200e3, 300e3]), "ens": rng.choice([[], [], [2]]),
              "step": rng.choice([1.0, 1.0, 0.5, 2.0, 3.0, 1.5, 0.75, 2.5, 0.1, 0.3, 0.7, 1.1, 0.1, 0.3, 0.7, 1.1]),
-             "offset": rng.choice([None, None, [2.0, 0.0], [-1.5, 3.0]]), "inner_frac": rng.choice([0.0, 0.0, 0.125, 0.25, 0.3]),
+             "offset": rng.choice([None, None, [2.0, 0.0], [-1.5, 3.0], [5.0, 5.0], [0.0, -4.0]]), "inner_frac": rng.choice([0.0, 0.0, 0.125, 0.25, 0.3]),
              "outer_frac": rng.choice([None, 0.5, 0.75, 0.9, 0.66]), "nr": rng.randint(1, 4), "na": rng.choice([1, 2, 3, 4, 6]),
              "rot": rng.choice([0.0, 0.0, 0.3]), "shift": rng.random() < 0.5, "i0": rng.randint(0, 3), "di": rng.randint(1, 4)}
         return c
@@ -269,6 +269,19 @@ class C12(Property):
                 ok = False
                 break
         if nb >= 1:
+            # the statement's own call: integrate_radial(inner, outer) with the detector's limits. It must not raise, and it returns the
+            # annulus up to the last whole bin (= AnnularDetector(inner, outer) when (outer - inner) / step is an integer)
+            o_req = outer if outer is not None else float(cut)
+            try:
+                fo = arr_of(f.integrate_radial(inner, o_req))
+            except RuntimeError as e:
+                ctx.violation("flexible-integrate-own-limits-raises", c, {"inner": inner, "outer": o_req, "step": c["step"], "error": str(e)[:120]})
+                return False
+            ao = ann(inner, inner + nb * c["step"])
+            if not near(fo, ao, total):
+                ctx.violation("flexible-integrate-own-limits-vs-annular", c, {"limits": [inner, o_req], "binned_to": inner + nb * c["step"],
+                                                                              "flexible": fo.reshape(-1)[:2].tolist(), "annular": ao.reshape(-1)[:2].tolist()})
+                ok = False
             i0 = min(c["i0"], nb - 1)
             i1 = min(i0 + c["di"], nb)
             a0, a1 = inner + i0 * c["step"], inner + i1 * c["step"]
@@ -297,6 +310,15 @@ class C12(Property):
                 if not near(ao, bo, total):
                     ctx.violation("annular-detector-ignores-offset", c, {"limits": [a0, a1], "offset": list(off), "detector": ao.reshape(-1)[:2].tolist(),
                                                                          "integrate_radial": bo.reshape(-1)[:2].tolist()})
+                    ok = False
+            # --- a shifted segmented detector == the shifted annulus (the shifted bins must not wrap around the cropped pattern)
+            if c.get("offset") and a1 > a0:
+                off = tuple(c["offset"])
+                so = arr_of(SegmentedDetector(c["nr"], c["na"], a0, a1, rotation=c["rot"], offset=off).detect(w))
+                ao = arr_of(AnnularDetector(a0, a1, offset=off).detect(w))
+                if not near(so.sum(axis=(-2, -1)), ao, total):
+                    ctx.violation("segmented-offset-vs-annular-offset", c, {"limits": [a0, a1], "offset": list(off),
+                                                                            "segments": so.sum(axis=(-2, -1)).reshape(-1)[:2].tolist(), "annular": ao.reshape(-1)[:2].tolist()})
                     ok = False
             # --- additivity over adjacent ranges
             mid = inner + ((i0 + i1) // 2) * c["step"]
